@@ -22,7 +22,8 @@ EXPLANATION = (
     "the configured order, drivers are pushed afterwards, push and pop use the same end of the per-vehicle stack, "
     "every path of add_to_stack_dict really pushes, one pop per vehicle id, and the phases of StepSimulation.update "
     "thread the state (drivers -> generators see the driver-updated state -> apply -> vehicle updates -> tick). "
-    "Decides these structural clauses; which situations each enter() rejects is C02/C07/C10."
+    "Package-wide error discipline: the value slot of an error-pair call reaches a function's result only on paths that "
+    "ruled out its error / None. Decides these structural clauses; which situations each enter() rejects is C02/C07/C10."
 )
 
 
@@ -48,6 +49,7 @@ def run(ctx: Ctx):
                     ok = v is None or flow.is_none(v) or (isinstance(v, ast.Tuple) and len(v.elts) == 2 and flow.is_none(v.elts[1]))
                     ctx.check(ok, "D1", "DU.no-partial-state", f"{sc.name}.{which}: failing path at line {m.path.lineno} returns no state", fn, m.path.end,
                               why_bad=f"returns {flow.dump(v)[:100]}", construct=f"{sc.name}.{which}:partial-state")
+    ctx.attempt(rules.rule_error_discipline, ctx, "D1")
     ctx.floor("DU.no-partial-state", 60)
     ctx.floor("ORD.stack", 2)
     ctx.floor("ORD.generation", 5)
@@ -277,5 +279,7 @@ def selftest():
         V("order-reversed", SS, "            instruction_generator_order=tuple(i_gen.name for i_gen in updated_i_gens),", "            instruction_generator_order=tuple(i_gen.name for i_gen in reversed(updated_i_gens)),", rule="ORD.generation"),
         V("reserve-exit-leaks-state", "nrel/hive/state/vehicle_state/reserve_base.py", "            elif updated_base is None:\n                return None, None\n            return simulation_state_ops.modify_base(sim, updated_base)",
           "            elif updated_base is None:\n                return None, None\n            return simulation_state_ops.modify_base(sim, updated_base)\n", kind="twin"),
+        V("unchecked-commit-result", "nrel/hive/state/vehicle_state/charge_queueing.py", "                error, updated_sim = simulation_state_ops.modify_station(sim, updated_station)\n                if error:\n                    response = SimulationStateError(\n                        f\"failure during ChargeQueueing.exit",
+          "                error, updated_sim = simulation_state_ops.modify_station(sim, updated_station)\n                if False:\n                    response = SimulationStateError(\n                        f\"failure during ChargeQueueing.exit", rule="DU.error-discipline"),
         V("twin-zip", SSO, "        update_error, updated_sim = result\n", "        (update_error, updated_sim) = result\n", kind="twin"),
     ]
